@@ -18,7 +18,7 @@ RULE = (
     "source kind incl. short-read byte streams, Tree.from_swc); then lexical deviations counted per line: every data row "
     "replaced by every single-dimension spelling variant (leading blanks, separators, trailing fields, float spellings of "
     "each float field, leading zeros in integer fields), every comment/blank line by every variant; thorough adds the full "
-    "product leading x separator x trailing x float spelling per row and all pairs of single-dimension variants on two-row "
+    "product leading x separator x trailing x float spelling per row (skeletons <= 3 lines) and all pairs of single-dimension variants on two-row "
     "skeletons; encodings: documents with non-ASCII comments written in utf-8/latin-1/utf-16 and read with each encoding "
     "(expected = reference applied to bytes.decode(), or an error when undecodable); faults: every placement (insert "
     "before / replace, every line position) of k=1 fault from a 55-entry menu (short rows, non-numeric token at each of "
@@ -29,7 +29,7 @@ RULE = (
     "(must return exactly n rows through 4 sources) and with a fault at the first/middle/last/appended line; calls: every "
     "ordered pair (thorough: triple) of reads of 8 different documents (valid, warning, malformed, undecodable, comment-only) x "
     "sources incl. one file name rewritten between reads x 2 APIs, every returned object re-inspected after later reads; sort: every labelled tree LT(n) x every row order (n=5 quick: "
-    "rotations + reversal) x 5 id maps, tagged and all-equal attributes, read with sort_nodes=True (read_swc, read_swc with "
+    "rotations + reversal; n=5 thorough: all 120 orders x 3 non-identity id maps) x 5 id maps, tagged and all-equal attributes, read with sort_nodes=True (read_swc, read_swc with "
     "an extra column, Tree.from_swc) and without. Oracle: an independent tokenizer (str.split + per-token regexes + int()/float()). "
     "Non-trivial = the document has at least one data row; distinct = distinct case tuple."
 )
@@ -353,9 +353,9 @@ def gen_grammar(tier):
                         yield [doc, 1, eol, OPT_DEFAULT]
         if quick:
             continue
-        # (3) thorough: full product of spelling dimensions on one row
+        # (3) thorough: full product of spelling dimensions on one row (skeletons of <= 3 lines)
         for li, k in enumerate(sk):
-            if k != "d":
+            if k != "d" or len(sk) > 3:
                 continue
             for a in range(len(LEAD)):
                 for b in range(len(SEP)):
@@ -670,7 +670,6 @@ def check_calls(case, R):
     seq = [(int(d), k, a) for d, k, a in case]
     R.state(seq)
     tmp = tempfile.mkdtemp(prefix="c02-")
-    live = []
     try:
         for di, kind, api in seq:
             raw = CALL_DOCS[di]
@@ -683,7 +682,6 @@ def check_calls(case, R):
             k2 = "path" if kind == "path-same" else kind
             opt = (k2, api, True, 0, "utf-8")
             ctx = lambda: f"sequence={seq} at doc {di} {raw!r} via {kind}/{api}"  # noqa: E731
-            src_kw = {}
             if want[0] == "bad" or not want[1]:
                 ok, res, _ = do_read(R, opt, data, tmp, attempt=True)
                 if want[0] == "bad":
@@ -691,13 +689,13 @@ def check_calls(case, R):
                 elif ok:
                     R.check(len(res[0]["id"]) == 0, "row-count", lambda: ctx() + f" rows from nothing {res}", "calls:rows-from-nothing")
                 continue
-            ok, res, warns = do_read(R, opt, data, tmp, **src_kw)
+            ok, res, warns = do_read(R, opt, data, tmp)  # the returned object is retained and re-inspected after the later reads
             if not ok:
                 continue
             want_tab = expected_table(want[1], True, 0)
-            good = compare_table(R, f"calls:{api}", res[0], want_tab, api != "read_swc", ctx)
-            good &= R.check([c.strip() for c in res[1]] == want[2], "comments", lambda: ctx() + f" comments {res[1]!r} want {want[2]!r}",
-                            f"calls:{api}:comments")
+            compare_table(R, f"calls:{api}", res[0], want_tab, api != "read_swc", ctx)
+            R.check([c.strip() for c in res[1]] == want[2], "comments", lambda: ctx() + f" comments {res[1]!r} want {want[2]!r}",
+                    f"calls:{api}:comments")
             if want[3]:
                 R.check(len(warns) >= 1, "no-warning-for-ignored-fields", ctx, f"calls:{api}:no-warning")
             R.outcome(di, kind, api, res[0]["x"], tuple(res[1]), bool(warns))
@@ -818,8 +816,9 @@ def gen_sort(tier):
                 orders = itertools.permutations(range(n))
             else:
                 orders = [tuple((i + s) % n for i in range(n)) for s in range(n)] + [tuple(reversed(range(n)))]
+            maps = ID_MAPS if (n <= 4 or quick) else ("plus1", "10i+3", "scattered")
             for order in orders:
-                for mk in ID_MAPS:
+                for mk in maps:
                     yield [list(p), list(order), mk]
 
 
@@ -832,7 +831,7 @@ def spaces(tier, seed):
         Space.of("grammar", lambda: gen_grammar(tier), check_grammar,
                  bounds={"max_lines": 4, "line_kinds": ["data", "comment", "blank"], "id_bases": BASES, "eols": EOLS, "option_sets": [list(o) for o in OPTS],
                          "lexical_deviations": "k=1 line, single-dimension variants (4-line skeletons: default options, LF only)" if quick else ("k=1 line, single-dimension variants" +
-                                                                                        "; k=1 row full product lead x sep x trail x float spelling; k=2 rows single-dimension pairs"),
+                                                                                        "; k=1 row full product lead x sep x trail x float spelling on skeletons <= 3 lines; k=2 rows single-dimension pairs"),
                          "lead": LEAD, "sep": SEP, "trail": TRAIL, "float_spellings": FSPELL, "comments": COMMENTS, "blanks": BLANKS}),
         Space.of("encodings", gen_encodings, check_encoding, bounds={"docs": len(ENC_DOCS), "encodings": ENCODINGS}),
         Space.of("faults", lambda: gen_faults(tier), check_fault,
@@ -850,5 +849,5 @@ def spaces(tier, seed):
                          "sequences": "all ordered pairs" + ("" if quick else "; all ordered triples over read_swc x {text, path-same}")}),
         Space.of("sort", lambda: gen_sort(tier), check_sort,
                  bounds={"LT_max_nodes": 5, "row_orders": "all n! for n<=4; n=5: " + ("5 rotations + reversal" if quick else "all 120"),
-                         "id_maps": list(ID_MAPS), "attributes": ["tagged", "all-equal"]}),
+                         "id_maps": list(ID_MAPS), "id_maps_n5_all_orders": None if quick else ["plus1", "10i+3", "scattered"], "attributes": ["tagged", "all-equal"]}),
     ]
